@@ -395,6 +395,19 @@ def rule_inv_none(prop, repo):
             if inv_called != (want == {"Some"}):
                 bad.append({"invert_called": inv_called, "is_zero": iz})
         R.check(not bad, "%s:inverse:%s" % (prop, path), "%s: %s" % (path, bad[:2]), b.file_line(), path, sample={"fn": path, "rows": rows})
+    # the limb-level inversion routine (found by role): no exit leaves *self as it was on entry — it cannot know the
+    # Montgomery one, so "this value is its own inverse" is not something it can decide from the raw limbs
+    closed, _, _ = shared.classify_u256(repo)
+    inv = [p for p, i in closed.items() if i.get("role") == "invert"]
+    R.instance()
+    if len(inv) != 1:
+        R.fail_closed("%s:inverse:limb-routine" % prop, "limb-level inversion routine not found by role (%d candidates)" % len(inv))
+    else:
+        ib = F.bodies[inv[0]]
+        fin = repo.tb(ib).final_value(("deref", 1))
+        unchanged = [a for a in alts(fin) if a == ("init", ("deref", 1))]
+        R.check(not unchanged, "%s:inverse:%s:unchanged-exit" % (prop, inv[0]), "%s has an exit on which *self keeps its entry value (an input returned as its own inverse)" % inv[0], ib.file_line(), inv[0],
+                sample={"fn": inv[0], "final_self_alternatives": len(alts(fin)), "entry_value_among_them": False})
     return R.finish()
 
 
